@@ -39,6 +39,25 @@ EXPECTED_REFUSAL = {'one_or_more': 'CannotBeRepeatedException', 'exactly': 'Cann
                     'at_most': 'CannotBeRepeatedException', 'not_preceded_by': None, 'or': 'CannotBeUnionedException', 'sub': 'EmptyClassException'}
 
 
+_files = {}
+
+
+def _match_file(text):
+    import os
+    import tempfile
+    p = _files.get(text)
+    if p is None or not os.path.exists(p):
+        d = os.path.join(os.environ.get('VERIF_SCRATCH') or os.environ.get('TMPDIR') or '/var/tmp', 'pregex-verif.heapfiles')
+        os.makedirs(d, exist_ok=True)
+        fd, p = tempfile.mkstemp(prefix='ab_aab_', suffix='.txt', dir=d)
+        with os.fdopen(fd, 'w', encoding='utf-8', newline='') as fh:
+            fh.write(text)
+        _files[text] = p
+        import atexit
+        atexit.register(lambda q=p: os.path.exists(q) and os.unlink(q))
+    return p
+
+
 def apply(objs, act):
     o, i, j, n = act
     if o.startswith('!'):
@@ -103,6 +122,12 @@ def apply(objs, act):
         return None, False
     if o == 'match':
         pat = str(x)
+        # the same question asked about a file: the answer is about the file's text, whatever the object went through before
+        t = MATCH_TEXTS[0]
+        exp = [m.group(0) for m in re.finditer(pat, t, O.FLAGS)]
+        got = x.get_matches(_match_file(t), is_path=True)
+        if got != exp or list(x.iterate_matches(_match_file(t), is_path=True)) != exp:
+            raise HistoryDependent('matching the file containing %r with %r after this history: %r, re gives %r' % (t, pat, got, exp))
         for t in MATCH_TEXTS:
             got = (x.has_match(t), x.get_matches(t), x.is_exact_match(t))
             exp = (re.search(pat, t, O.FLAGS) is not None, [m.group(0) for m in re.finditer(pat, t, O.FLAGS)],
